@@ -38,6 +38,19 @@ THEOREMS = [("Kopf.Props.X01", "Kopf.X01." + n) for n in [
 ]] + [("Kopf.Props.X01_Noop", "Kopf.X01.noop_makes_no_version")]
 
 
+ASSUMPTIONS = [
+    "X01 (composed reactor): the composed model's turn is atomic — a cycle that sends a merge-patch AND a JSON-patch makes two versions "
+    "(release after a retried delete handler, patch.fns, the carried patch): such cycles are skipped and counted (x01_skipped: "
+    "two-version-cycle); a cycle whose two requests straddle a foreign write is not compared; on.event constants are generated only "
+    "with handlers that never ask for a delay; a record differing only in `stopped` (C02.Rec has no such field) cuts the history "
+    "(x01_model_limit). The tie covers one object, create/update/delete handlers, late echoes, foreign writes, worker retirement.",
+    "X01: stale_then_converges is proved only as stale_then_converges_partial (guard: k silent iterations bring the system InTime); "
+    "the ranking argument that the guard is met within a bound is not proved.",
+]
+TRUSTED = ["harness/props/x01_reactor.py abstraction of sim_c07.Sim07 traces into the adversary's acts (late-echo lag, foreign writes, "
+           "per-iteration handler outcomes, retirements) and the rank-of-version comparison"]
+
+
 def ticks(x: float) -> int:
     v = x * 64
     r = round(v)
